@@ -6,7 +6,10 @@ stacks dataset wrappers (index subsets, filters, shuffles, repeats, content / la
 the mix wrapper. Model and oracle are given that dataset by enumerating a separately built instance of the stack (`dataset_view`),
 never by reading the stack's specification or attributes of the code under test. Further optional case parts run the judged request
 on a pickled / deep copy, after warm-up requests on the same object, next to a second differently configured mix wrapper, and on
-float64 samples; they never change what is demanded (the property statement on the returned sample and label)."""
+float64 samples, on samples that are handed out in another memory layout (non-contiguous / offset views, fresh per call) and on datasets
+that state their labels in another representation (0-dim tensor, one-hot vector of several dtypes, package OneHotWrapper /
+LabelSmoothingWrapper directly below the mix); they never change what is demanded (the property statement on the returned sample and
+label, the label of a sample being the vector the dataset states for it)."""
 import json
 import random
 import time
@@ -157,12 +160,59 @@ def _classes():
         def getitem_class(self, idx, ctx=None):
             return self.dataset.getitem_class(len(self.dataset) - 1 - idx, ctx=ctx)
 
-    for c in (IdDataset, XOffsetWrapper, ClsShiftWrapper, ReverseWrapper):
+    class XLayoutWrapper(KDWrapper):
+        """same indices, same values, other MEMORY LAYOUT: a fresh tensor per call that is a non-contiguous (or offset) view"""
+
+        def __init__(self, dataset, how):
+            super().__init__(dataset=dataset)
+            self.how = how
+
+        def getitem_x(self, idx, ctx=None):
+            return relayout(self.dataset.getitem_x(idx, ctx=ctx), self.how)
+
+    class LabelFormWrapper(KDWrapper):
+        """same indices, same labels, other REPRESENTATION of the label (fresh object per call)"""
+
+        def __init__(self, dataset, form, n):
+            super().__init__(dataset=dataset)
+            self.form, self.n = form, n
+
+        def getitem_class(self, idx, ctx=None):
+            import torch
+            from torch.nn.functional import one_hot
+            c = torch.tensor(int(self.dataset.getitem_class(idx, ctx=ctx)))
+            if self.form == "tensor0":
+                return c
+            v = one_hot(c, num_classes=self.n)
+            if self.form == "onehot_f32":
+                return v.float()
+            if self.form == "onehot_f64":
+                return v.double()
+            return v
+
+    for c in (IdDataset, XOffsetWrapper, ClsShiftWrapper, ReverseWrapper, XLayoutWrapper, LabelFormWrapper):
         c.__module__ = __name__
         c.__qualname__ = c.__name__
         globals()[c.__name__] = c
         _CLS[c.__name__] = c
     return _CLS
+
+
+def relayout(t, how):
+    """a fresh tensor with the shape and values of t in another memory layout"""
+    import torch
+    if how == "permuted" and t.ndim >= 2:
+        # what loading H,W,C data and permuting it to C,H,W gives: dense, but not in row-major order
+        return t.transpose(0, -1).contiguous().transpose(0, -1)
+    if how == "offset":
+        # contiguous view that does not start at the beginning of its storage
+        buf = torch.cat([torch.zeros(3, dtype=t.dtype), t.flatten()])
+        return buf[3:].view(t.shape)
+    if how == "sliced":
+        # the leading columns of a wider buffer (rows are not adjacent in memory)
+        return torch.cat([t, torch.zeros_like(t)], dim=-1)[..., :t.shape[-1]]
+    # strided: every second element of a larger buffer
+    return torch.stack([t, torch.zeros_like(t)], dim=-1)[..., 0]
 
 
 def apply_below(ds, sp, case):
@@ -185,6 +235,16 @@ def apply_below(ds, sp, case):
         return _classes()["ClsShiftWrapper"](ds, sp["by"], case["n_classes"])
     if k == "reverse":
         return _classes()["ReverseWrapper"](ds)
+    if k == "xlayout":
+        return _classes()["XLayoutWrapper"](ds, sp["how"])
+    if k == "labelform":
+        return _classes()["LabelFormWrapper"](ds, sp["form"], case["n_classes"])
+    if k == "onehot":
+        from kappadata.wrappers import OneHotWrapper
+        return OneHotWrapper(ds)
+    if k == "smooth":
+        from kappadata.wrappers import LabelSmoothingWrapper
+        return LabelSmoothingWrapper(ds, smoothing=sp["smoothing"])
     raise ValueError(f"unknown wrapper spec {k}")
 
 
@@ -204,11 +264,27 @@ def dataset_view(case):
         ds, root_xs = make_dataset(case)
         n = len(ds)
         xs = [ds.getitem_x(k) for k in range(n)]
-        cls = [ds.getitem_class(k) for k in range(n)]
-        cls = [int(c) for c in cls]
+        stated = [stated_label(ds.getitem_class(k), case["n_classes"]) for k in range(n)]
     except Exception:  # noqa
         return None
-    return {"xs": xs, "classes": cls, "root_xs": root_xs, "root_classes": list(case["classes"])}
+    return {"xs": xs, "classes": [c for _, c in stated], "labs": [v for v, _ in stated], "root_xs": root_xs,
+            "root_classes": list(case["classes"]), "root_labs": [stated_label(c, case["n_classes"])[0] for c in case["classes"]]}
+
+
+def stated_label(c, n_classes):
+    """the label of a sample as the dataset states it: (label vector or None when it is not a point of the simplex, class or None when the
+    vector is not one-hot). An int / 0-dim tensor c stands for the one-hot vector e_c; a 1-d tensor is the label vector itself."""
+    import torch
+    if torch.is_tensor(c) and c.ndim == 1:
+        v = c.detach().clone().to(torch.float32)
+        if len(v) != n_classes or bool((v < 0).any()) or abs(float(v.sum()) - 1) > 1e-5:
+            return None, None
+        hot = int(v.argmax())
+        return v, (hot if float(v[hot]) == 1.0 else None)
+    k = int(c)
+    if not (0 <= k < n_classes):
+        return None, k
+    return torch.eye(n_classes)[k].clone(), k
 
 
 def track_below(case):
@@ -372,9 +448,10 @@ def run_real(case, req=None):
 # model request / comparison
 # ----------------------------------------------------------------------------------------------
 def modelable(case, real):
-    """the model is asked when the dataset below the mix could be enumerated, its labels are naturals and the index addresses it"""
+    """the model is asked when the dataset below the mix could be enumerated, its labels are naturals (stated as such or as one-hot
+    vectors) and the index addresses it"""
     view = real.get("view")
-    return view is not None and all(c >= 0 for c in view["classes"]) and 0 <= case["idx"] < max(len(view["xs"]), 1)
+    return view is not None and all(c is not None and c >= 0 for c in view["classes"]) and 0 <= case["idx"] < max(len(view["xs"]), 1)
 
 
 def model_request(case, real):
@@ -438,7 +515,7 @@ def in_domain(case, view):
         return False
     if case["ctor"].get("unify") not in (None, "pad_or_cut_end"):
         return False
-    return all(0 <= c < case["n_classes"] for c in view["classes"]) and 0 <= case["idx"] < len(shapes)
+    return all(v is not None for v in view["labs"]) and 0 <= case["idx"] < len(shapes)
 
 
 def unify_ref(xi, xj):
@@ -451,25 +528,26 @@ def unify_ref(xi, xj):
     return u
 
 
-def explain(case, view, x, cls, cand_xs=None, cand_classes=None):
+def explain(case, view, x, cls, cand_xs=None, cand_labs=None):
     """list of (j, lambda) readings under which (x, cls) is the untouched sample / a convex combination of sample idx of the mixed
-    dataset with candidate j; j=None = untouched. Candidates: the samples of the mixed dataset (default) or another list (diagnosis)."""
+    dataset with candidate j; j=None = untouched. Candidates: the samples of the mixed dataset (default) or another list (diagnosis).
+    The label of a sample is the vector the dataset states for it (e_c for a class c)."""
     import torch
     i = case["idx"]
     diag = cand_xs is not None
     cand_xs = view["xs"] if cand_xs is None else cand_xs
-    cand_classes = view["classes"] if cand_classes is None else cand_classes
-    C = case["n_classes"]
+    cand_labs = view["labs"] if cand_labs is None else cand_labs
     xi = view["xs"][i]
-    e = torch.eye(C)
     out = []
-    ci = view["classes"][i]
+    li = view["labs"][i]
+    if cls is not None:
+        cls = cls.to(torch.float32)
     if not diag and (x is None or (list(x.shape) == list(xi.shape) and torch.equal(x, xi))):
-        if cls is None or bool(torch.all(torch.abs(cls - e[ci]) <= 1e-6)):
+        if cls is None or bool(torch.all(torch.abs(cls - li) <= 1e-6)):
             out.append((None, 1.0))
     for j in range(len(cand_xs)):
-        cj = cand_classes[j]
-        if not (0 <= cj < C) or cand_xs[j].ndim != xi.ndim:
+        lj = cand_labs[j]
+        if lj is None or cand_xs[j].ndim != xi.ndim:
             continue
         u = unify_ref(xi, cand_xs[j])
         d = xi - u
@@ -480,8 +558,11 @@ def explain(case, view, x, cls, cand_xs=None, cand_classes=None):
             den = float((d * d).sum())
             if den > 0:
                 lams.append(float(((x - u) * d).sum()) / den)
-        if cls is not None and ci != cj:
-            lams.append(float(cls[ci]))
+        if cls is not None:
+            dl = li - lj
+            dden = float((dl * dl).sum())
+            if dden > 1e-9:
+                lams.append(float(((cls - lj) * dl).sum()) / dden)
         if not lams:
             lams = [0.5]       # x_i = U(x_j) and equal classes: every weight gives the same result
         lam = lams[0]
@@ -492,7 +573,7 @@ def explain(case, view, x, cls, cand_xs=None, cand_classes=None):
             scale = torch.maximum(xi.abs(), u.abs())
             ok = ok and bool(torch.all(torch.abs(x - (lam * xi + (1 - lam) * u)) <= REL_TOL * scale + 1e-6))
         if cls is not None:
-            ok = ok and bool(torch.all(torch.abs(cls - (lam * e[ci] + (1 - lam) * e[cj])) <= 2e-5))
+            ok = ok and bool(torch.all(torch.abs(cls - (lam * li + (1 - lam) * lj)) <= 2e-5))
         if ok:
             out.append((j, lam))
     return out
@@ -520,7 +601,7 @@ def check_joint(case, layout, o, tag):
     if not explain(case, view, x, cls):
         # diagnosis: is it a convex combination with a sample that does not belong to the dataset the wrapper was put on
         # (a sample of the root dataset that the wrappers below filter out / move / change)?
-        foreign = explain(case, view, x, cls, view["root_xs"], view["root_classes"])
+        foreign = explain(case, view, x, cls, view["root_xs"], view["root_labs"])
         if foreign:
             return Failure("mixwrapper:partner-not-in-dataset",
                            f"request '{layout}': result is a convex combination with root sample {foreign[0][0]} (weight {foreign[0][1]:.4f}), which is "
@@ -532,7 +613,7 @@ def check_joint(case, layout, o, tag):
         lr = explain(case, view, None, cls)
         return Failure("mixwrapper:not-convex-same-weight",
                        f"request '{layout}': result is neither the untouched sample nor a convex combination with one partner and one weight "
-                       f"for data and label for {tag}", case, "x' = l*x_i+(1-l)*U(x_j), label' = l*e_ci+(1-l)*e_cj (same j, l)",
+                       f"for data and label for {tag}", case, "x' = l*x_i+(1-l)*U(x_j), label' = l*label_i+(1-l)*label_j (same j, l)",
                        {"layout": layout, "data_alone_(j,l)": xr[:4], "label_alone_(j,l)": lr[:4], "label": cls.tolist()})
     if float_sum(case["ctor"]) == 1.0:
         # probability one: every call must have drawn a partner and a weight (observable on the generator)
@@ -609,6 +690,12 @@ MIX_CTORS = [{"mixup_p": 1.0, "cutmix_p": None, "mixup_alpha": 0.8, "cutmix_alph
              {"mixup_p": None, "cutmix_p": 1.0, "mixup_alpha": None, "cutmix_alpha": 0.5, "unify": None}]
 
 
+X_LAYOUTS = ["permuted", "permuted", "sliced", "sliced", "strided", "offset"]
+LABEL_FORMS = [{"w": "labelform", "form": "tensor0"}, {"w": "labelform", "form": "onehot_f32"}, {"w": "labelform", "form": "onehot_f32"},
+               {"w": "labelform", "form": "onehot_i64"}, {"w": "labelform", "form": "onehot_f64"}, {"w": "onehot"}, {"w": "onehot"},
+               {"w": "smooth", "smoothing": 0.1}, {"w": "smooth", "smoothing": 0.25}]
+
+
 def gen_below_spec(rng, items, n_classes):
     """one wrapper spec for a dataset that currently has the samples `items` (list of (root id, class))"""
     n = len(items)
@@ -659,6 +746,17 @@ def decorate(case, rng, comp):
         if below:
             case["below"] = below
             case["idx"] = rng.randrange(len(track_below(case)))
+    # directly below the mix: the same samples in another memory layout / the same labels in another representation
+    top = []
+    if rng.random() < 0.14:
+        top.append({"w": "xlayout", "how": rng.choice(X_LAYOUTS)})
+    if rng.random() < 0.18:
+        top.append(dict(rng.choice(LABEL_FORMS)))
+        if top[-1]["w"] == "smooth" and case["n_classes"] < 2:
+            top[-1] = {"w": "onehot"}       # (the package's smoothing of a one-class dataset is a scalar: no label vector)
+    if top:
+        rng.shuffle(top)
+        case["below"] = list(case.get("below") or []) + top
     r = rng.random()
     if r < 0.08:
         case["via"] = "pickle"
@@ -781,6 +879,21 @@ def structured_compositions():
             out.append({"shapes": shapes, "classes": [0, 1, 2, 1], "n_classes": 3,
                         "ctor": {"mixup_p": 1.0, "cutmix_p": None, "mixup_alpha": 1.0, "cutmix_alpha": None, "unify": "pad_or_cut_end"},
                         "seed": None if seed % 3 == 0 else seed, "gseed": seed, "idx": idx, "req": REQS[seed % 4], **extra})
+    # memory layouts of the samples (rank 1..3, equal shapes and pad/cut) and label representations; the label block uses datasets of
+    # one and two samples so that the drawn partner is often the sample itself
+    mix1 = {"mixup_p": 1.0, "cutmix_p": None, "mixup_alpha": 0.8, "cutmix_alpha": None, "unify": None}
+    for how in ("permuted", "sliced", "strided", "offset"):
+        for shapes, unify in (([[3, 2, 4]] * 3, None), ([[2, 3]] * 3, None), ([[5]] * 3, None), ([[2, 3, 2], [3, 2, 2], [2, 2, 3]], "pad_or_cut_end")):
+            for idx in range(3):
+                seed += 1
+                out.append({"shapes": shapes, "classes": [0, 1, 2], "n_classes": 3, "ctor": {**mix1, "unify": unify},
+                            "seed": None if seed % 3 == 0 else seed, "gseed": seed, "idx": idx, "req": REQS[seed % 4],
+                            "below": [{"w": "xlayout", "how": how}]})
+    for form in LABEL_FORMS[:2] + LABEL_FORMS[3:6] + LABEL_FORMS[7:8]:
+        for n in (1, 2, 2):
+            seed += 1
+            out.append({"shapes": [[2, 2]] * n, "classes": [1, 2][:n], "n_classes": 3, "ctor": dict(mix1),
+                        "seed": None if seed % 3 == 0 else seed, "gseed": seed, "idx": seed % n, "req": REQS[seed % 4], "below": [dict(form)]})
     return out
 
 
@@ -794,7 +907,7 @@ def signature(case, real):
         j = d.get("v") if d.get("k") == "int" else None
         if isinstance(j, int) and 0 <= j < len(view["xs"]):
             partner = tuple("=" if a == b else ("<" if a < b else ">") for a, b in zip(view["xs"][i].shape, view["xs"][j].shape))
-    below = tuple(sp["w"] for sp in case.get("below") or [])
+    below = tuple(sp["w"] + str(sp.get("how") or sp.get("form") or "") for sp in case.get("below") or [])
     return (len(case["shapes"][0]), case["ctor"].get("unify"), str(case["ctor"].get("mixup_p")), str(case["ctor"].get("cutmix_p")),
             case["seed"] is None, case["req"], real.get("ctor"), real.get("res"), kinds, partner,
             below, case.get("via"), bool(case.get("warm")), bool(case.get("sibling")), case.get("dtype"))
@@ -817,7 +930,8 @@ class C11(PropertyCheck):
     ]
     trusted_extra = [
         "modelled by hand: KDMixWrapper.__init__ (argument checks), getitem_xclass (draw order, early return, cutmix NotImplementedError, "
-        "shape assertion / pad_or_cut_end loop incl. the paddings list, mixup), getitem_x / getitem_class / fused plan, to_one_hot_vector on ints",
+        "shape assertion / pad_or_cut_end loop incl. the paddings list, mixup), getitem_x / getitem_class / fused plan, to_one_hot_vector on ints (labels stated as 0-dim tensors / one-hot vectors are decoded to their class for the model; "
+        "smoothed label vectors are judged by the oracle only)",
         "not modelled: Beta sampler, float32 rounding, in-place mutation of tensors returned by a non-cloning dataset, tensors of different rank",
     ]
     technique = "Lean 4 proof over hand model + differential correspondence on id-encoded datasets + independent decoding oracle"
@@ -850,7 +964,9 @@ class C11(PropertyCheck):
                     "45% of the random cases and a structured block put the mix wrapper on a stack of 1..3 dataset wrappers (SubsetWrapper by start/end/indices/percent, "
                     "ClassFilterWrapper, ShuffleWrapper, RepeatWrapper, and test doubles that change content / labels / order) -- model and oracle see the "
                     "dataset BELOW the mix by enumerating it; shares of the cases run the request on a pickled / deep copy, after warm-up requests on the same object, "
-                    "next to a second mix wrapper with another configuration on the same dataset, on float64 samples; distinct = (rank, unify, split, seeded?, layout, "
+                    "next to a second mix wrapper with another configuration on the same dataset, on float64 samples, on samples handed out as non-contiguous / offset views "
+                    "(permuted, column slice of a wider buffer, strided, storage offset) and on labels stated as 0-dim tensor / one-hot vector (float32, float64, int64, package OneHotWrapper) / smoothed vector "
+                    "(package LabelSmoothingWrapper; oracle only), incl. one- and two-sample datasets where the partner is the sample itself; distinct = (rank, unify, split, seeded?, layout, "
                     "outcome, draw kinds per call, per-dimension pad/cut/equal pattern of the drawn partner, wrapper kinds below, copy kind, warm-up?, sibling?, dtype)")
         res.exhaustive = False
         reals, reqs = [], []
@@ -867,6 +983,9 @@ class C11(PropertyCheck):
                     res.bump(f"{k}={case[k]}")
             res.bump("below=" + "+".join(sp["w"] for sp in case.get("below") or []) if len(case.get("below") or []) < 2
                      else f"below={len(case['below'])} wrappers")
+            for sp in case.get("below") or []:
+                if sp["w"] in ("xlayout", "labelform", "onehot", "smooth"):
+                    res.bump(f"directly below the mix: {sp['w']} {sp.get('how') or sp.get('form') or ''}".rstrip())
             if case.get("warm"):
                 res.bump("warm-up requests")
             if case.get("sibling"):
